@@ -362,13 +362,13 @@ def run(ctx):
     if ctx.get('replay'):
         rp = json.load(open(ctx['replay']))
         rep = rp.get('replay') or {}
-        if rep.get('kind') in ('confusable', 'script', 'one-lab'):
-            from props import c06x
+        from props import c06x
+        if rep.get('kind') in c06x.KINDS:
             x = c06x.run_extra(rng, tier, only=rep)
             if x['errors']:
                 return dict(infra_error='; '.join(x['errors']))
             return dict(evaluations=x['evaluations'], distinct_nontrivial=x['nontrivial'], rule='replay',
-                        samples=x['samples'], violations=x['violations'], disagreements=x['disagreements'])
+                        samples=x['samples'], violations=c06x.labelled(x['violations'], 'C06'), disagreements=x['disagreements'])
         if rep.get('kind') == 'meta':
             recs, metaB, errors = explore([], [], 1, 120)
             recs, metaB, errors = explore([gen_case(rng)], [rep['meta']], 1, 120)
@@ -401,7 +401,8 @@ def run(ctx):
     if errors or infra or xbox.get('errors') or 'violations' not in xbox:
         return dict(infra_error='; '.join(errors + [r['infra'] for r in infra[:2]] + xbox.get('errors', ['extra families did not finish'])))
     viol, dis = evaluate(recs, metaB)
-    viol = xbox['violations'] + viol
+    # (every violation of these families names the properties whose statement it violates; here: C06's)
+    viol = c06x.labelled(xbox['violations'], 'C06') + viol
     dis = xbox['disagreements'] + dis
     if (dis or not ctx['proof_ok']) and not viol:
         rng2 = random.Random(seed * 7919 + 61)
@@ -433,7 +434,7 @@ def run(ctx):
     return dict(
         evaluations=len(recs) + len(metaB) + xbox['evaluations'],
         distinct_nontrivial=len({json.dumps(r['case'], sort_keys=True) for r in nontrivial}) + xbox['nontrivial'],
-        rule='generated two-run histories (8 tasks with dependencies over 3 types / 2 cache classes, first run serial|fork|spawn, second run in a fresh interpreter with another PYTHONHASHSEED and another backend, second request equal / different / superset; free-text parameters with non-ASCII / astral / lone-surrogate / NUL characters; text encodings of the two interpreters UTF-8->ASCII (legacy C locale), ASCII->UTF-8, UTF-8->UTF-8) + save/load round trips of generated start/duration pairs; + sequences of ==-equal-but-differently-typed (confusable) tasks constructed and run one after the other in one process, re-checked in a fresh interpreter + a generated __main__ script (task classes defined in the script) run twice with spawn first / spawn second; non-trivial = the second run served at least one task from the cache',
+        rule='generated two-run histories (8 tasks with dependencies over 3 types / 2 cache classes, first run serial|fork|spawn, second run in a fresh interpreter with another PYTHONHASHSEED and another backend, second request equal / different / superset; free-text parameters with non-ASCII / astral / lone-surrogate / NUL characters; text encodings of the two interpreters UTF-8->ASCII (legacy C locale), ASCII->UTF-8, UTF-8->UTF-8) + save/load round trips of generated start/duration pairs; + sequences of ==-equal-but-differently-typed (confusable) tasks constructed and run one after the other in one process, re-checked in a fresh interpreter (also: members of same-named enum classes nested in different holder classes / of two modules, same-qualname task classes of two modules with equal parameter values) + a generated __main__ script (task classes defined in the script) run twice with spawn first / spawn second + round trips run -> cached_tasks -> run_tasks(listed) over dict parameters with unsorted keys; non-trivial = the second run served at least one task from the cache',
         samples=[dict(case=r['case'], real=r['real']) for r in nontrivial[:2]] + xbox['samples'],
         violations=viol[:7], disagreements=dis[:5], distribution=dist,
         assumptions=['distinct tasks have distinct cache keys (C07; the recorded finding F07 is outside this universe)',
